@@ -1,22 +1,52 @@
 TECHNIQUE = ('bounded symbolic execution of LLVM IR lowered to C: CBMC/SAT (cadical), sequentialised step machine '
-             '(engine cbmc-seq: symbolic scheduler over all atomic operations / mutex operations), ghost invocation ledger + '
-             'CBMC pointer checks for the closure lifetime')
-ASSUMPTIONS = []
-OUTSIDE = ''
+             '(engine cbmc-seq: symbolic scheduler over all atomic operations / mutex operations), guarded promotion of the '
+             'std::function invoker call so that the closure bodies are preemptible, ghost invocation ledger + CBMC pointer '
+             'checks for the closure lifetime')
+ASSUMPTIONS = [
+    'kernel: the TimedTaskScheduler object consists of its queue mutex, task heap and epoch word; its constructor (which '
+    'starts the thread running timeQueueRunLoop) is not run.  Model thread 1 stands in for that thread: it takes the task '
+    'from the heap under queueMutex_ (top/pop, as timeQueueRunLoop does) and calls the real kickOffTask at an arbitrary time',
+    'model clock: dispenso::getTime() returns a constant; the first run time is either before it (kick-off by the caller inside '
+    'schedule()) or after it (queued)',
+    'backing schedulable: the real dispenso::ImmediateInvoker (instances imm*) or a model pool that keeps a typed copy of the '
+    'scheduled closure which a model worker thread runs later (instances k*)',
+    'sequential consistency for all atomics',
+]
+OUTSIDE = ('"never before its first scheduled time": the time comparison lives in timeQueueRunLoop / addTimedTask and is not part '
+           'of this kernel; more than 2 runs / 2 kick-offs; more than one task per scheduler; schedules needing more execution '
+           'segments than the stated rounds; weak-memory reorderings; the real ThreadPool / TaskSet / NewThreadInvoker as backing '
+           'schedulable; TimedTaskScheduler construction and destruction')
+
+# STATUS (see NOTES.md): no instance is decided yet.  CBMC's symbolic execution of the step machine does not finish within
+# 10 minutes even for the smallest instance (imm1, 2 threads): path-condition blow-up around the shared_ptr release sites
+# (every release site expands dispose -> ~TimedTaskImpl -> std::function manager -> closure destructor).  The instances are
+# kept so that `./check C26` reports INCONCLUSIVE (timeout) rather than nothing.
 
 
 def I(name, defs, steps, nthreads, bounds, **kw):
     d = {'name': name, 'src': 'tt_kernel.cpp', 'engine': 'cbmc-seq', 'steps': steps, 'spin_loops': True, 'defs': defs,
-         'unwind': 3, 'nthreads': nthreads, 'timeout': 1500, 'shims': ['moodycamel'], 'models': ['aligned_alloc'], 'devirt': True,
+         'unwind': 3, 'nthreads': nthreads, 'timeout': 240, 'shims': ['moodycamel'], 'models': ['aligned_alloc'], 'devirt': True,
          'repo_sources': ['dispenso/timed_task.cpp'],
+         # the call `func(next)` in kickOffTask goes through std::function's invoker pointer: promote it (guarded) to a
+         # direct call of the TimedTaskImpl closure's handler so that the closure body is inlined into the thread root
          'promote_icalls': [r'_Function_handler.*TimedTaskImpl.*9_M_invoke'],
-         'no_inline': ['_ZL5setupv', '_ZL6finalev'],
-         'tiers': ['quick', 'thorough'], 'bounds': bounds}
+         'no_inline': ['_ZL5setupv', '_ZL6finalev', '_ZL9take_nextPSt10shared_ptrIN8dispenso6detail13TimedTaskImplEE'],
+         'tiers': ['quick', 'thorough'], 'bounds': bounds,
+         'thorough': {'timeout': 1700}}
     d.update(kw)
     return d
 
 
 INSTANCES = [
-    I('dbg', {'VF_TIMES': 1, 'VF_KICKS': 1, 'VF_WORKERS': 1, 'VF_ONLY_SETUP': 1}, 4, 3, 'x', engine='cbmc', tiers=['dbg']),
-    I('k1', {'VF_TIMES': 1, 'VF_KICKS': 1, 'VF_WORKERS': 1}, 4, 3, 'x'),
+    I('imm1', {'VF_TIMES': 1, 'VF_KICKS': 1, 'VF_SCHED_KIND': 0, 'VF_PAST': 0}, 4, 2,
+      'real ImmediateInvoker; timesToRun in 0..1, queued, 1 kick-off by the scheduler stand-in; owner: destroy | cancel+destroy | '
+      'detach+destroy | cancel (symbolic); 4 scheduler rounds'),
+    I('k1', {'VF_TIMES': 1, 'VF_KICKS': 1, 'VF_WORKERS': 1}, 4, 3,
+      'model pool with 1 worker; timesToRun in 0..1, first run in the past or queued (symbolic), 1 kick-off; owner actions as '
+      'in imm1; 4 scheduler rounds', tiers=['thorough']),
+    I('k2', {'VF_TIMES': 2, 'VF_KICKS': 2, 'VF_WORKERS': 1}, 5, 3,
+      'model pool with 1 worker; timesToRun in 0..2, 2 kick-offs, symbolic function results (false stops); 5 scheduler rounds',
+      tiers=['thorough']),
+    # sequential smoke test of the set-up path only (not part of any tier): ./check C26 --tier dbg
+    I('dbg', {'VF_TIMES': 1, 'VF_KICKS': 1, 'VF_WORKERS': 1, 'VF_ONLY_SETUP': 1}, 4, 3, 'set-up only', engine='cbmc', tiers=['dbg']),
 ]
